@@ -67,10 +67,10 @@ def log (s : State) : Option Operation → State
 
 def setI (l : List Int) (i : Nat) (v : Int) : List Int := l.set i v
 
-/-- argument plumbing of `select_runout_count` / `can_select_runout_count` (state.py:5213, 5248):
-    `verify_runout_count_selection(player_index)` — the literal behaviour of the code. -/
-def runoutPlumb (_count : Option Int) (i : Option Nat) : Option Int × Option Nat :=
-  (i.map Int.ofNat, none)
+/-- argument plumbing of `select_runout_count` / `can_select_runout_count`:
+    `verify_runout_count_selection(runout_count, player_index)`. -/
+def runoutPlumb (count : Option Int) (i : Option Nat) : Option Int × Option Nat :=
+  (count, i)
 
 /-- `_begin_betting` (4157-4259) : opener selection; `none` = `.index(None)`/assert failure -/
 def openerOf (s : State) : Except Err Nat :=
@@ -142,14 +142,16 @@ def subPotsOfPot (s : State) (i : Nat) (pot : Pot) : Except Err (List SubPot) :=
       | .error e => .error e
       | .ok out =>
         let subAmount := if j == 0 then q + r else q
-        -- hand types for which *some player* has a hand on this board
+        -- hand types for which some player *eligible for this pot* has a hand on this board
         let hts : Except Err (List Nat) :=
           (List.range cfg.handTypes.length).foldl (fun acc k =>
             match acc with
             | .error e => .error e
             | .ok l => match s.getUpHands cfg env j k with
               | .error e => .error e
-              | .ok hands => if hands.any Option.isSome then .ok (l ++ [k]) else .ok l) (.ok [])
+              | .ok hands =>
+                if pot.players.any (fun p => (hands.getD p none).isSome) then .ok (l ++ [k])
+                else .ok l) (.ok [])
         match hts with
         | .error e => .error e
         | .ok hts =>
@@ -159,6 +161,14 @@ def subPotsOfPot (s : State) (i : Nat) (pot : Pot) : Except Err (List SubPot) :=
             .ok (out ++ hts.filterMap fun k =>
               let a := if some k == hts.head? then sq + sr else sq
               if a != 0 then some ⟨a, i, some j, some k⟩ else none)) (.ok [])
+
+/-- `try: verify(...) except (ValueError, UserWarning): return False; return True` -/
+def canOf (r : Except Err α) : Except Err Bool :=
+  match r with
+  | .ok _ => .ok true
+  | .error .valueError => .ok false
+  | .error .userWarning => .ok false
+  | .error e => .error e
 
 /-- one micro-step of the interpreter -/
 def step (m : M) : M :=
@@ -323,10 +333,18 @@ def step (m : M) : M :=
       else m.cont s [.kDealBoard] rest
     else m.cont s [] rest
   | .kHoleLoop =>
-    if s.anyHoleDealing then m.cont s [.opDealHole .none none, .kHoleLoop] rest
-    else m.cont s [] rest
+    -- `while self.can_deal_hole(): self.deal_hole()`
+    match canOf (s.verifyHoleDealing cfg env .none none) with
+    | .error e => m.raise e
+    | .ok true => m.cont s [.opDealHole .none none, .kHoleLoop] rest
+    | .ok false => m.cont s [] rest
   | .kDealBoard =>
-    if cfg.auto .boardDealing && s.anyBoardDealing then m.cont s [.opDealBoard .none] rest
+    -- `if Automation.BOARD_DEALING in self.automations and self.can_deal_board(): self.deal_board()`
+    if cfg.auto .boardDealing then
+      match canOf (s.verifyBoardDealing cfg env .none) with
+      | .error e => m.raise e
+      | .ok true => m.cont s [.opDealBoard .none] rest
+      | .ok false => m.cont s [] rest
     else m.cont s [] rest
   | .endDeal =>
     if s.cardBurning || s.anyHoleDealing || s.anyBoardDealing || anyB s.standingPat then
@@ -408,7 +426,7 @@ def step (m : M) : M :=
     | .ok opener =>
       let s := { s with
         openerIndex := some opener
-        bringInStatus := s.streetIsFirst cfg && cfg.bringIn > 0 }
+        bringInStatus := s.streetIsFirst && cfg.bringIn > 0 }
       let s := { s with completionStatus := s.bringInStatus }
       -- `for i: if not statuses[i] or not stacks[i] or not get_effective_stack(i): remove(i)`
       let r := (playerIndices cfg).foldl (fun (acc : List Nat × Option Err) i =>
@@ -562,11 +580,9 @@ def step (m : M) : M :=
             | some rc => { s with streetReturnIndex := some (si + 1), streetReturnCount := rc - 1 }
             | none => s
           else s
-        if s.allIn && !s.streetIsLast cfg then m.cont s [.beginDeal] rest
+        if s.allIn && !s.streetIsLast cfg && s.liveCount > 1 then m.cont s [.beginDeal] rest
         else m.cont s [.beginKill] rest
   | .opRunout count i =>
-    -- state.py:5248 `self.verify_runout_count_selection(player_index)`: the player index is
-    -- passed in the position of `runout_count`, and no player index at all
     match s.verifyRunoutCountSelection cfg (runoutPlumb count i).1 (runoutPlumb count i).2 with
     | .error e => m.raise e
     | .ok p =>
@@ -755,12 +771,7 @@ def verifyOp (s : State) : Ctl → Except Err Unit
 
 /-- the body of the python `can_*` methods: `try: verify(...) except (ValueError, UserWarning):
     return False; return True` — any other exception propagates. -/
-def canOp (s : State) (op : Ctl) : Except Err Bool :=
-  match verifyOp cfg env s op with
-  | .ok () => .ok true
-  | .error .valueError => .ok false
-  | .error .userWarning => .ok false
-  | .error e => .error e
+def canOp (s : State) (op : Ctl) : Except Err Bool := canOf (verifyOp cfg env s op)
 
 /-- run until the control stack is empty (or fuel runs out) -/
 def run : Nat → M → M
